@@ -98,6 +98,8 @@ def gen_case(run_seed: int, index: int, tier: str) -> dict:
         X.append(x)
         Y.append(y)
     case["X"], case["Y"] = X, Y
+    # persistent transmit/receive buffers refilled in place for every call (instead of fresh tensors)
+    case["buffers"] = rng.random() < 0.25
     ops = []
     nops = rng.choice([2, 3, 4, 6, 10, 20, 40]) if tier == "quick" else rng.choice([3, 6, 10, 20, 40, 80, 200])
     p_compute = rng.choice([0.1, 0.25, 0.5])
@@ -112,6 +114,15 @@ def gen_case(run_seed: int, index: int, tier: str) -> dict:
             ops.append(["oneshot", [rng.randrange(npool) for _ in range(rng.randrange(1, 5))]])
         elif r < p_reset + p_compute + 0.12:
             ops.append(["helper", rng.randrange(npool)])
+        elif r < p_reset + p_compute + 0.125:
+            # the one-shot form on the LIVE object: documented as a per-batch computation, it must leave the accumulation alone
+            ops.append(["oneshot_live", [rng.randrange(npool) for _ in range(rng.randrange(1, 5))]])
+        elif r < p_reset + p_compute + 0.13 and L >= 3 and metric != "ber":
+            nd = [b for b in range(2, L) if L % b != 0]
+            if nd:
+                # a rejected call on the live object; nothing is asked of it until the reset that follows
+                ops.append(["reject_live", rng.choice(["update", "forward", "shape"]), rng.randrange(npool)])
+                ops.append(["reset"])
         elif r < p_reset + p_compute + 0.135:
             ops.append(["neutral", rng.choice(["eval", "train", "to_cpu", "float", "zero_grad", "state_dict_read", "str"])])
         elif r < p_reset + p_compute + 0.15 and L >= 3:
@@ -208,11 +219,25 @@ def execute(case: dict) -> RunResult:
         res.violations.append(Violation(sig, f"C16/{comp}: {msg}"))
 
     cname = {"ber": "BitErrorRate", "bler": "BlockErrorRate"}
+    bufs = {}
+
+    def buffered(t, which, n_rows):
+        """the same values in a persistent buffer (one per role and row count), refilled in place"""
+        if not case.get("buffers") or t.dim() != 2:
+            return t
+        key = (which, n_rows, t.dtype)
+        if key not in bufs:
+            bufs[key] = torch.empty_like(t)
+        else:
+            res.probes["buffer.refilled_in_place"] += 1
+        bufs[key].copy_(t)
+        return bufs[key]
+
     for oi, op in enumerate(case["ops"]):
         if op[0] == "update":
             rows, layout = op[1], op[2]
-            x = _mk_tensor(case, rows, "X", layout)
-            y = _mk_tensor(case, rows, "Y", layout)
+            x = buffered(_mk_tensor(case, rows, "X", layout), "x", len(rows))
+            y = buffered(_mk_tensor(case, rows, "Y", layout), "y", len(rows))
             if layout == "flat":
                 if "ber" in objs and case["metric"] == "ber":
                     x, y = x.reshape(-1), y.reshape(-1)
@@ -317,6 +342,41 @@ def execute(case: dict) -> RunResult:
                 if (got == 0.0) != equal:
                     violate(cname[k], "zero_iff_equal", f"metric = {got!r} while the inputs {'agree' if equal else 'differ'}")
                 res.probes["oneshot"] += 1
+        elif op[0] == "oneshot_live":
+            rows = op[1]
+            x = buffered(_mk_tensor(case, rows, "X", "2d"), "x", len(rows))
+            y = buffered(_mk_tensor(case, rows, "Y", "2d"), "y", len(rows))
+            be, bt, ke, kt = _ref_counts(case, rows, block)
+            for k, o in objs.items():
+                got = o(x, y)
+                want = (be / bt) if k == "ber" else (ke / kt)
+                log.add("oneshot_live", {"metric": k, "rows": rows, "value": got})
+                if not isinstance(got, torch.Tensor) or got.numel() != 1:
+                    violate(cname[k], "oneshot_shape", f"metric(x, y) on the live object returned {type(got).__name__} of shape {list(getattr(got, 'shape', []))}, expected one number")
+                elif not _close(float(got), want):
+                    violate(cname[k], "oneshot_value", f"metric(x, y) on the live object = {float(got)!r} on rows {rows}; exact fraction is {want!r}")
+            res.faults["history.oneshot_on_live_object"] += 1
+        elif op[0] == "reject_live":
+            how, r = op[1], op[2]
+            x = _mk_tensor(case, [r], "X", "2d")
+            y = _mk_tensor(case, [r], "Y", "2d")
+            for k, o in objs.items():
+                if k != "bler":
+                    continue
+                saved = o.block_size
+                try:
+                    if how == "shape":
+                        o.update(x, y[:, :-1]) if L > 1 else o.update(x, y.reshape(-1))
+                    else:
+                        nd = [b for b in range(2, L) if L % b != 0]
+                        o.block_size = nd[0] if nd else saved  # reconfigured to a non-divisor for this one call
+                        (o.update if how == "update" else o)(x, y)
+                except Exception:
+                    res.probes["rejected_on_live_object"] += 1
+                finally:
+                    o.block_size = saved
+            res.faults["history.rejected_call_on_live_object"] += 1
+            log.add("reject_live", how)
         elif op[0] == "helper":
             r = op[1]
             if case["complex"]:
